@@ -11,6 +11,7 @@ import (
 	"go.sia.tech/core/gateway"
 	"go.sia.tech/core/types"
 	"verif/harness/internal/chaingen"
+	"verif/harness/internal/mgrsim"
 	"verif/harness/internal/netsim"
 )
 
@@ -21,7 +22,7 @@ var blkFields = []string{"parent", "nonce", "timestamp", "commitment", "payout-v
 var blkShapes = []string{"drop-last", "drop", "swap", "sibling", "error"}
 var cpFields = []string{"no-v2", "sibling", "txn-tamper", "payout-value", "v2-height", "state-other", "state-tamper", "missing"}
 var relayHeaderKinds = []string{"unknown-parent", "low-work", "side", "attach"}
-var relayOutlineKinds = []string{"unknown-parent", "low-work", "side", "attach-valid", "attach-bad-height", "attach-bad-time", "missing-right", "missing-wrong", "missing-fail"}
+var relayOutlineKinds = []string{"unknown-parent", "low-work", "side", "side-known", "attach-valid", "attach-bad-height", "attach-bad-time", "missing-right", "missing-wrong", "missing-fail"}
 var relayTxnKinds = []string{"unknown-basis", "empty", "invalid"}
 
 type attack struct {
@@ -41,6 +42,7 @@ type attack struct {
 	txnEmpty     bool
 	completion   string
 	relayAt      []int // length of the liar's log when the announcement was sent (per offence)
+	tipMoved     bool  // the victim's tip was no longer v0 when the announcement was sent
 }
 
 func chainTo(t *chaingen.Tree, n *chaingen.Node) []*chaingen.Node {
@@ -325,12 +327,18 @@ func buildAttack(s Scen, t *chaingen.Tree, ts *terms, v0, h *chaingen.Node) *att
 	return a
 }
 
-func lowWork(cs consensus.State, bh *types.BlockHeader) {
+// lowWork grinds a nonce whose id does NOT meet the target; false if the target is so easy
+// (the difficulty floor of the test networks) that no such nonce turns up.
+func lowWork(cs consensus.State, bh *types.BlockHeader) bool {
 	f := cs.NonceFactor()
 	bh.Nonce = (bh.Nonce / f) * f
-	for bh.ID().CmpWork(cs.PoWTarget()) >= 0 {
+	for i := 0; i < 200000; i++ {
+		if bh.ID().CmpWork(cs.PoWTarget()) < 0 {
+			return true
+		}
 		bh.Nonce += f
 	}
+	return false
 }
 
 func validChild(n *chaingen.Node) *chaingen.Node {
@@ -360,7 +368,10 @@ func buildRelay(s Scen, t *chaingen.Tree, ts *terms, v0, h *chaingen.Node, a *at
 			bh = types.BlockHeader{ParentID: types.BlockID{1, 2, 3}, Timestamp: v0.Block.Timestamp.Add(time.Second)}
 		case "low-work":
 			bh = types.BlockHeader{ParentID: v0.ID, Timestamp: cs.PrevTimestamps[0].Add(time.Second), Commitment: types.Hash256{9}}
-			lowWork(cs, &bh)
+			if !lowWork(cs, &bh) {
+				a.ok = false
+				return
+			}
 			a.mustBan = true
 		case "side":
 			if side == nil {
@@ -406,7 +417,10 @@ func buildRelay(s Scen, t *chaingen.Tree, ts *terms, v0, h *chaingen.Node, a *at
 				return
 			}
 			bh := b.Header()
-			lowWork(cs, &bh)
+			if !lowWork(cs, &bh) {
+				a.ok = false
+				return
+			}
 			b.Nonce = bh.Nonce
 			blk = *b
 			a.mustBan = true
@@ -416,6 +430,30 @@ func buildRelay(s Scen, t *chaingen.Tree, ts *terms, v0, h *chaingen.Node, a *at
 				return
 			}
 			blk = chaingen.DeepCopyBlock(side.Block)
+			a.noBan = true
+		case "side-known":
+			// an honest peer on a valid fork that is not heavier than the victim's chain: the victim downloads
+			// the fork (stored by AddBlocks with header-derived states only), then the peer announces its tip
+			var sk *chaingen.Node
+			for _, n := range t.Nodes {
+				if n.ChainValid() && n.Block.V2 != nil && n.Parent != nil && n.Parent.Parent != nil && !mgrsim.Heavier(n, v0) && n != v0 && n.Height < t.Env.Net.HardforkV2.RequireHeight {
+					on := false
+					for x := v0; x != nil; x = x.Parent {
+						if x == n || x == n.Parent {
+							on = true
+						}
+					}
+					if !on {
+						sk = n
+					}
+				}
+			}
+			if sk == nil {
+				a.ok = false
+				return
+			}
+			a.l.chain = chainTo(t, sk)
+			blk = chaingen.DeepCopyBlock(sk.Block)
 			a.noBan = true
 		case "attach-valid", "missing-right", "missing-wrong", "missing-fail":
 			b := mk()
